@@ -26,13 +26,30 @@ found or is ambiguous: a level without any name test, an argument that cannot be
 a string literal, two retains of the same level with different literals, no / several
 candidate `format!` prefixes, a MethodName constant without exactly one string literal.
 
-It does not check the SHAPE of the conditions (how the tests are combined, which child lists are
-tested, that the placeholders of fields/methods/classes are clones of the key): the model
-hard-codes the shape, and the correspondence run (~9000 cases, truth table of every level
-enumerated) together with the property oracle is what ties it to the code.  Anything that
-looks like a change of shape (another string predicate such as ends_with/contains, an
-unexpected receiver of a retain) is recorded in NOTES and shown in the evidence — never an error.
 A changed literal changes Consts.v and thereby breaks theorem C10_placeholder_constants.
+
+Round 4 — the SHAPE of the retain conditions is extracted as well, into <vcheck.COQ>/C10/Shapes.v:
+
+  * the value of every retain closure (its tail expression) of both files is parsed as a boolean
+    expression (`||`, `&&`, `!`, parentheses / braces) over ATOMS, and emitted as a Gallina boolean
+    function of those atoms: `<v>.javadoc.is_some()` (doc), `<v>.<children>.is_empty()`
+    (params_empty / fields_empty / methods_empty), the whole name test
+    `<v>.info.names[<ns>].as_ref().is_some_and(|x| …)` (name) for remove_dummy;
+    the `let <check> = match &<v>.info { … }` variable (check), `<v>.info.is_diff()` (info),
+    `<v>.javadoc[.as_ref()].is_diff()` (doc) and the is_empty() atoms for insert_dummy;
+  * the name test's closure must be a plain disjunction of `<x>.as_inner().starts_with(…)`,
+    `<x> == MethodName::…` / `== "…"` tests; a starts_with on anything but `<x>.as_inner()` (e.g.
+    on get_simple_name()) is recorded as `rd_name_receivers_plain := false`;
+  * of every `match &<v>.info` of insert_dummy: the boolean each Action variant yields and which
+    variants assign `<v>.info = Action::Edit(…)`.
+
+Theorem C10_retain_shapes (coq/C10/Theory3.v retain_shapes) states what these functions must be,
+EXTENSIONALLY (for all values of the atoms): reordering operands, adding parentheses, De Morgan
+rewrites, renaming closure parameters or the check variable leave it provable; regrouping
+`(check && (info || doc)) || !children.is_empty()` into `check && (info || doc || !children…)`
+does not.  C10_model_uses_shapes states that the model's keep_* functions are these functions
+applied to the model's atoms.  An atom the translator does not know is an ERROR (fail closed):
+the check then reports a broken tie and searches for a failing input as usual.
 """
 import os
 import re
@@ -342,6 +359,428 @@ def insert_prefix(errs):
     return next(iter(cands))
 
 
+# ---------------------------------------------------------------------------------------------
+# shapes (round 4)
+
+class ShapeError(Exception):
+    pass
+
+
+def skip_string(s, i):
+    """s[i] == '"' -> index just after the closing quote"""
+    j = i + 1
+    while j < len(s) and s[j] != '"':
+        j += 2 if s[j] == "\\" else 1
+    return j + 1
+
+
+def split_top(s, sep):
+    """split at `sep` (one character) where all brackets are closed (string literals respected)"""
+    out, depth, cur, i = [], 0, [], 0
+    while i < len(s):
+        c = s[i]
+        if c == '"':
+            j = skip_string(s, i)
+            cur.append(s[i:j])
+            i = j
+            continue
+        if c in "([{":
+            depth += 1
+        elif c in ")]}":
+            depth -= 1
+        if c == sep and depth == 0:
+            out.append("".join(cur))
+            cur = []
+        else:
+            cur.append(c)
+        i += 1
+    out.append("".join(cur))
+    return out
+
+
+class BoolParser:
+    """boolean expression over opaque atoms: or := and ('||' and)* ; and := un ('&&' un)* ;
+    un := '!' un | '(' or ')' | '{' or '}' | atom.  An atom runs to the next `||`, `&&` or closing
+    bracket at bracket depth 0; a `(`/`[`/`{` inside an atom (call arguments, closures) is skipped balanced."""
+
+    def __init__(self, text):
+        self.s = text
+        self.i = 0
+
+    def ws(self):
+        while self.i < len(self.s) and self.s[self.i].isspace():
+            self.i += 1
+
+    def peek(self, t):
+        self.ws()
+        return self.s.startswith(t, self.i)
+
+    def parse(self):
+        e = self.p_or()
+        self.ws()
+        if self.i != len(self.s):
+            raise ShapeError("cannot read the condition beyond %r" % self.s[self.i:self.i + 40])
+        return e
+
+    def p_or(self):
+        e = self.p_and()
+        while self.peek("||"):
+            self.i += 2
+            e = ("or", e, self.p_and())
+        return e
+
+    def p_and(self):
+        e = self.p_un()
+        while self.peek("&&"):
+            self.i += 2
+            e = ("and", e, self.p_un())
+        return e
+
+    def p_un(self):
+        self.ws()
+        if self.i >= len(self.s):
+            raise ShapeError("condition ends unexpectedly")
+        c = self.s[self.i]
+        if c == "!" and not self.s.startswith("!=", self.i):
+            self.i += 1
+            return ("not", self.p_un())
+        if c in "({":
+            close = ")" if c == "(" else "}"
+            self.i += 1
+            e = self.p_or()
+            self.ws()
+            if not self.s.startswith(close, self.i):
+                raise ShapeError("expected %r at %r" % (close, self.s[self.i:self.i + 30]))
+            self.i += 1
+            self.ws()
+            if self.i < len(self.s) and self.s[self.i] in ".?":
+                raise ShapeError("a method call on a parenthesised condition is not understood: %r" % self.s[self.i:self.i + 30])
+            return e
+        return self.p_atom()
+
+    def p_atom(self):
+        start, depth = self.i, 0
+        while self.i < len(self.s):
+            c = self.s[self.i]
+            if c == '"':
+                self.i = skip_string(self.s, self.i)
+                continue
+            if c in "([{":
+                depth += 1
+            elif c in ")]}":
+                if depth == 0:
+                    break
+                depth -= 1
+            elif depth == 0 and (self.s.startswith("||", self.i) or self.s.startswith("&&", self.i)):
+                break
+            self.i += 1
+        a = self.s[start:self.i].strip()
+        if not a:
+            raise ShapeError("empty operand in a condition near %r" % self.s[max(0, start - 20):start + 20])
+        return ("atom", a)
+
+
+def map_atoms(e, f):
+    if e[0] == "atom":
+        return ("var", f(e[1]))
+    if e[0] == "not":
+        return ("not", map_atoms(e[1], f))
+    return (e[0], map_atoms(e[1], f), map_atoms(e[2], f))
+
+
+def ev(e, env):
+    if e[0] == "var":
+        return env[e[1]]
+    if e[0] == "not":
+        return not ev(e[1], env)
+    if e[0] == "or":
+        return ev(e[1], env) or ev(e[2], env)
+    return ev(e[1], env) and ev(e[2], env)
+
+
+def variables(e, acc=None):
+    acc = [] if acc is None else acc
+    if e[0] == "var":
+        if e[1] not in acc:
+            acc.append(e[1])
+    else:
+        for x in e[1:]:
+            variables(x, acc)
+    return acc
+
+
+def gallina(e):
+    if e[0] == "var":
+        return e[1]
+    if e[0] == "not":
+        return "negb %s" % gallina_atomic(e[1])
+    op = " || " if e[0] == "or" else " && "
+    return "(" + gallina(e[1]) + op + gallina(e[2]) + ")"
+
+
+def gallina_atomic(e):
+    g = gallina(e)
+    return g if e[0] == "var" or g.startswith("(") else "(" + g + ")"
+
+
+def closure_parts(body):
+    """`|a, b| rest` -> ([a, b], rest)"""
+    m = re.match(r"\s*(?:move\s+)?\|([^|]*)\|", body)
+    if not m:
+        raise ShapeError("the argument of retain is not a closure: %r" % body.strip()[:50])
+    params = [re.sub(r"^(?:&|mut\s+)*", "", x.strip()).split(":")[0].strip() for x in m.group(1).split(",")]
+    return params, body[m.end():]
+
+
+def statements_and_tail(rest):
+    """closure body (block or expression) -> (statements, tail expression); nested retains already blanked"""
+    t = rest.strip()
+    if t.startswith("{") and balanced(t, 0, "{", "}") == len(t):
+        t = t[1:-1]
+    parts = split_top(t, ";")
+    return [x.strip() for x in parts[:-1] if x.strip()], parts[-1].strip()
+
+
+CHILD_VAR = {"parameters": "params_empty", "fields": "fields_empty", "methods": "methods_empty"}
+ALLOWED = {
+    "param": [], "field": [], "method": ["params_empty"], "class": ["fields_empty", "methods_empty"],
+}
+PLAIN = {"v": True}
+
+
+def name_test_ok(arg, lv):
+    """the argument of is_some_and: `|x| disjunction of known name tests`"""
+    params, rest = closure_parts(arg)
+    if len(params) != 1:
+        raise ShapeError("level %s: is_some_and takes a closure of one parameter, found %r" % (lv, params))
+    x = re.escape(params[0])
+    _, tail = statements_and_tail(rest)
+    e = BoolParser(tail).parse()
+
+    def atom(a):
+        n = re.sub(r"\s+", "", a)
+        if re.fullmatch(x + r"\.as_inner\(\)\.starts_with\(.+\)", n):
+            return n
+        if re.fullmatch(r"(?:\*|&)*" + x + r"(?:\.as_inner\(\))?==.+", n) or re.fullmatch(r".+==(?:\*|&)*" + x + r"(?:\.as_inner\(\))?", n):
+            return n
+        if "starts_with(" in n:
+            PLAIN["v"] = False
+            NOTES.append("remove_dummy.rs: level %s: prefix test on something other than the whole name: %s" % (lv, a.strip()))
+            return n
+        raise ShapeError("level %s: name test %r is none of <x>.as_inner().starts_with(…), <x> == …" % (lv, a.strip()))
+
+    f = map_atoms(e, atom)
+    vs = variables(f)
+    for bits in range(1 << len(vs)):
+        env = {v: bool(bits >> k & 1) for k, v in enumerate(vs)}
+        if ev(f, env) != any(env.values()):
+            raise ShapeError("level %s: the name test is not a plain disjunction of its prefix / whole-name tests: %s" % (lv, tail.strip()[:120]))
+
+
+def rd_shape(seg, body, out):
+    """one retain closure of remove_dummy (and, recursively, the nested ones)"""
+    nested = retains(body)
+    own = body
+    for _, _, _, s0, e0 in reversed(nested):
+        own = own[:s0] + " " + own[e0:]
+    for seg2, _, body2, _, _ in nested:
+        rd_shape(seg2, body2, out)
+    if seg not in LEVEL_OF:
+        return
+    lv = LEVEL_OF[seg]
+    params, rest = closure_parts(own)
+    if len(params) != 2:
+        raise ShapeError("remove_dummy.rs: level %s: retain closure with %d parameters" % (lv, len(params)))
+    v = re.escape(params[1])
+    stmts, tail = statements_and_tail(rest)
+    if stmts:
+        raise ShapeError("remove_dummy.rs: level %s: statements other than nested retains before the condition: %r" % (lv, stmts[0][:60]))
+    e = BoolParser(tail).parse()
+
+    def atom(a):
+        n = re.sub(r"\s+", "", a)
+        if re.fullmatch(v + r"\.javadoc\.is_some\(\)", n):
+            return "doc"
+        m = re.fullmatch(v + r"\.(" + IDENT + r")\.is_empty\(\)", n)
+        if m and CHILD_VAR.get(m.group(1)) in ALLOWED[lv]:
+            return CHILD_VAR[m.group(1)]
+        m = re.fullmatch(v + r"\.info\.names\[" + IDENT + r"\]\.as_ref\(\)\.is_some_and\((.*)\)", n)
+        if m:
+            i0 = a.index("is_some_and")
+            j0 = a.index("(", i0)
+            name_test_ok(a[j0 + 1:balanced(a, j0) - 1], lv)
+            return "name"
+        raise ShapeError("remove_dummy.rs: level %s: the condition uses a term the translator does not know: %r" % (lv, a.strip()[:100]))
+
+    f = map_atoms(e, atom)
+    if lv in out and out[lv] != f:
+        raise ShapeError("remove_dummy.rs: two retains of level %s with different conditions" % lv)
+    out[lv] = f
+
+
+ACTIONS = ("None", "Add", "Remove", "Edit")
+
+
+def validator_of(stmt, v, lv):
+    """`let <var> = match &<v>.info { arms }` -> (var, values, rewrites) or None"""
+    m = re.match(r"let\s+(?:mut\s+)?(" + IDENT + r")\s*(?::\s*bool\s*)?=\s*match\s+&?\s*" + v + r"\s*\.\s*info\s*\{", stmt)
+    if not m:
+        return None
+    i = m.end() - 1
+    j = balanced(stmt, i, "{", "}")
+    if stmt[j:].strip():
+        raise ShapeError("insert_dummy.rs: level %s: text after the match of the check variable: %r" % (lv, stmt[j:].strip()[:40]))
+    arms_text = stmt[i + 1:j - 1]
+    values, rewrites = {}, {}
+    pos = 0
+    while True:
+        am = re.compile(r"\s*(?:Action\s*::\s*)?(" + IDENT + r")\s*(\([^)]*\))?\s*=>\s*").match(arms_text, pos)
+        if not am:
+            if arms_text[pos:].strip():
+                raise ShapeError("insert_dummy.rs: level %s: match arm not understood: %r" % (lv, arms_text[pos:].strip()[:50]))
+            break
+        k = am.end()
+        if k < len(arms_text) and arms_text[k] == "{":
+            e = balanced(arms_text, k, "{", "}")
+            block = arms_text[k + 1:e - 1]
+            nxt = e
+        else:
+            nxt = k
+            depth = 0
+            while nxt < len(arms_text):
+                c = arms_text[nxt]
+                if c == '"':
+                    nxt = skip_string(arms_text, nxt)
+                    continue
+                if c in "([{":
+                    depth += 1
+                elif c in ")]}":
+                    depth -= 1
+                elif c == "," and depth == 0:
+                    break
+                nxt += 1
+            block = arms_text[k:nxt]
+        rest = arms_text[nxt:].lstrip()
+        pos = len(arms_text) - len(rest) + (1 if rest.startswith(",") else 0)
+        var = am.group(1)
+        if var not in ACTIONS or var in values:
+            raise ShapeError("insert_dummy.rs: level %s: unexpected match arm %r" % (lv, var))
+        val = split_top(block, ";")[-1].strip()
+        if val not in ("true", "false"):
+            raise ShapeError("insert_dummy.rs: level %s: arm %s does not end in true / false: %r" % (lv, var, val[:40]))
+        values[var] = val == "true"
+        rewrites[var] = re.search(v + r"\s*\.\s*info\s*=\s*Action\s*::\s*Edit\s*\(", block) is not None
+        if re.search(v + r"\s*\.\s*info\s*=", block) and not rewrites[var]:
+            raise ShapeError("insert_dummy.rs: level %s: arm %s assigns the action to something other than Action::Edit(…)" % (lv, var))
+    if set(values) != set(ACTIONS):
+        raise ShapeError("insert_dummy.rs: level %s: the match of the check variable does not list the four Action variants one by one: %s" % (lv, sorted(values)))
+    return m.group(1), tuple(values[a] for a in ACTIONS), tuple(rewrites[a] for a in ACTIONS)
+
+
+def ins_shape(seg, body, out):
+    nested = retains(body)
+    own = body
+    for _, _, _, s0, e0 in reversed(nested):
+        own = own[:s0] + " " + own[e0:]
+    for seg2, _, body2, _, _ in nested:
+        ins_shape(seg2, body2, out)
+    if seg not in LEVEL_OF:
+        return
+    lv = LEVEL_OF[seg]
+    params, rest = closure_parts(own)
+    if len(params) != 2:
+        raise ShapeError("insert_dummy.rs: level %s: retain closure with %d parameters" % (lv, len(params)))
+    v = re.escape(params[1])
+    stmts, tail = statements_and_tail(rest)
+    check = None
+    for st in stmts:
+        got = validator_of(st, v, lv)
+        if got is None:
+            if re.match(r"fn\s", st):
+                continue    # a local helper function (get_simplified)
+            raise ShapeError("insert_dummy.rs: level %s: statement not understood: %r" % (lv, st[:60]))
+        if check is not None:
+            raise ShapeError("insert_dummy.rs: level %s: two check variables" % lv)
+        check = got
+    if check is None:
+        raise ShapeError("insert_dummy.rs: level %s: no `let <check> = match &%s.info {…}` found" % (lv, params[1]))
+    e = BoolParser(tail).parse()
+    cv = re.escape(check[0])
+
+    def atom(a):
+        n = re.sub(r"\s+", "", a)
+        if re.fullmatch(cv, n):
+            return "check"
+        if re.fullmatch(v + r"\.info\.is_diff\(\)", n):
+            return "info"
+        if re.fullmatch(v + r"\.javadoc(?:\.as_ref\(\))?\.is_diff\(\)", n):
+            return "doc"
+        m = re.fullmatch(v + r"\.(" + IDENT + r")\.is_empty\(\)", n)
+        if m and CHILD_VAR.get(m.group(1)) in ALLOWED[lv]:
+            return CHILD_VAR[m.group(1)]
+        raise ShapeError("insert_dummy.rs: level %s: the condition uses a term the translator does not know: %r" % (lv, a.strip()[:100]))
+
+    f = map_atoms(e, atom)
+    if lv in out:
+        raise ShapeError("insert_dummy.rs: two retains of level %s" % lv)
+    out[lv] = (f, check[1], check[2])
+
+
+GNAME = {"param": "param", "field": "field", "method": "method", "class": "class"}
+
+
+def gbool(b):
+    return "true" if b else "false"
+
+
+def shapes_text(errs):
+    PLAIN["v"] = True
+    rd, ins = {}, {}
+    try:
+        src = strip_comments(open(repo_file("quill/src/action/remove_dummy.rs"), encoding="utf-8").read())
+        body = fn_body(src, "remove_dummy")
+        for seg, _, rb, _, _ in retains(body or ""):
+            rd_shape(seg, rb, rd)
+        src = strip_comments(open(repo_file("quill/src/action/insert_dummy.rs"), encoding="utf-8").read())
+        body = fn_body(src, "insert_dummy_and_contract_inner_names")
+        for seg, _, rb, _, _ in retains(body or ""):
+            ins_shape(seg, rb, ins)
+        for lv in LEVELS:
+            if lv not in rd:
+                raise ShapeError("remove_dummy.rs: no retain condition for level %s" % lv)
+            if lv not in ins:
+                raise ShapeError("insert_dummy.rs: no retain condition for level %s" % lv)
+    except (ShapeError, ValueError, IndexError) as ex:
+        errs.append("C10 shape extraction: %s" % (ex,))
+        return None
+    t = "(* GENERATED by translate/c10_consts.py from quill/src/action/{remove_dummy,insert_dummy}.rs — do not edit.\n"
+    t += "   The value of every retain closure as a boolean function of its atoms (see the translator's\n"
+    t += "   docstring); what they must be is theorem retain_shapes of C10/Theory3.v. *)\n"
+    t += "From Coq Require Import Bool.\nLocal Open Scope bool_scope.\n\n"
+    for lv in LEVELS:
+        args = ["doc"] + ALLOWED[lv] + ["name"]
+        t += "Definition rd_shape_%s (%s : bool) : bool := %s.\n" % (GNAME[lv], " ".join(args), gallina(rd[lv]))
+    t += "\n"
+    for lv in LEVELS:
+        args = ["check", "info", "doc"] + ALLOWED[lv]
+        t += "Definition ins_shape_%s (%s : bool) : bool := %s.\n" % (GNAME[lv], " ".join(args), gallina(ins[lv][0]))
+    t += "\n(* per Action variant (None, Add, Remove, Edit): value of the check variable; does the arm assign Action::Edit(…) *)\n"
+    for lv in LEVELS:
+        t += "Definition ins_validator_%s : bool * bool * bool * bool := (%s).\n" % (GNAME[lv], ", ".join(gbool(b) for b in ins[lv][1]))
+        t += "Definition ins_rewrites_%s : bool * bool * bool * bool := (%s).\n" % (GNAME[lv], ", ".join(gbool(b) for b in ins[lv][2]))
+    t += "\n(* every prefix test of remove_dummy is <name>.as_inner().starts_with(…), i.e. on the whole name *)\n"
+    t += "Definition rd_name_receivers_plain : bool := %s.\n" % gbool(PLAIN["v"])
+    return t
+
+
+def write_if_changed(path, text):
+    os.makedirs(os.path.dirname(path), exist_ok=True)
+    old = open(path, encoding="utf-8").read() if os.path.exists(path) else None
+    if old != text:
+        with open(path, "w", encoding="utf-8") as f:
+            f.write(text)
+
+
 def canon(xs):
     return sorted(xs, key=lambda x: (len(x), x))
 
@@ -375,10 +814,12 @@ def translate():
         refs = {n for lv in found for (k, n) in found[lv][1] if k == "const"}
         mc = method_consts(refs, errs)
         ins_prefix = insert_prefix(errs)
+        shapes = shapes_text(errs)
     except (ValueError, OSError, IndexError) as ex:
         return ["C10 translator cannot read the sources: %r" % (ex,)]
     if errs:
         return errs
+    write_if_changed(os.path.join(vcheck.COQ, "C10", "Shapes.v"), shapes)
     exact = {}
     for lv in LEVELS:
         vals = set()
